@@ -108,18 +108,21 @@ struct ElemT {
 	ElemT() : value(0), moved_from(0) { born("default construction"); g_elems.default_ctors++; }
 	explicit ElemT(int v) : value(v), moved_from(0) { born("construction"); }
 	ElemT(int a, int b) : value(a * 1000 + b), moved_from(0) { born("construction(a,b)"); }
-	ElemT(const ElemT &o) requires Copyable : value(o.value), moved_from(o.moved_from) { src_ok(&o, "copy-construct-from"); born("copy construction"); g_elems.copies++; }
+	// A source outside its lifetime has no value: what is "read" from it is junk by definition, and the monitor makes that junk
+	// deterministic (DEAD_VALUE) so that value-comparing oracles (C13/C14/C17) observe the read, not only the lifetime registry (C16).
+	static constexpr int DEAD_VALUE = 0x7BADBAD;
+	ElemT(const ElemT &o) requires Copyable : value(o.value), moved_from(o.moved_from) { if(!src_ok(&o, "copy-construct-from")) value = DEAD_VALUE; born("copy construction"); g_elems.copies++; }
 	ElemT(ElemT &&o) requires Movable : value(o.value), moved_from(o.moved_from) {
 		bool ok = src_ok(&o, "move-construct-from"); born("move construction"); g_elems.moves++;
-		if(ok) o.moved_from = 1;
+		if(ok) o.moved_from = 1; else value = DEAD_VALUE;
 	}
 	ElemT &operator=(const ElemT &o) requires Copyable {
-		src_ok(&o, "copy-assign-from"); src_ok(this, "copy-assign-to");
-		value = o.value; moved_from = o.moved_from; g_elems.assigns++; return *this;
+		bool ok = src_ok(&o, "copy-assign-from"); src_ok(this, "copy-assign-to");
+		value = ok ? o.value : DEAD_VALUE; moved_from = o.moved_from; g_elems.assigns++; return *this;
 	}
 	ElemT &operator=(ElemT &&o) requires Movable {
 		bool ok = src_ok(&o, "move-assign-from"); src_ok(this, "move-assign-to");
-		value = o.value; moved_from = o.moved_from; if(ok && &o != this) o.moved_from = 1; g_elems.assigns++; return *this;
+		value = ok ? o.value : DEAD_VALUE; moved_from = o.moved_from; if(ok && &o != this) o.moved_from = 1; g_elems.assigns++; return *this;
 	}
 	~ElemT() {
 		auto it = g_elems.alive.find(this);
@@ -129,7 +132,7 @@ struct ElemT {
 		g_elems.destroyed++;
 		magic = 0xDEADDEAD;
 	}
-	int get() const { src_ok(this, "read"); return value; }
+	int get() const { return src_ok(this, "read") ? value : DEAD_VALUE; }
 	bool operator==(const ElemT &o) const { src_ok(this, "compare"); src_ok(&o, "compare"); return value == o.value; }
 };
 using Elem = ElemT<true, true>;
